@@ -89,6 +89,26 @@ pub fn judge(b: &Beh, obs: Obs) -> Verdict {
                     return v;
                 }
             }
+            // C10: the library decides exactly what the independent reference relation decides
+            "ref" => {
+                if !oo.reference.is_empty() && ((oo.check == "accept") != (oo.reference == "accept")) {
+                    fail(
+                        &mut v,
+                        format!("op{} check: library {} but the reference relation says {}", i + 1, oo.check, oo.reference),
+                    );
+                    return v;
+                }
+                // the reference knowingly omits an atom it cannot evaluate (Hyrax: opening of com_eval);
+                // a claimed value that does not influence the decision is still a violation of C10
+                if b.tag == "c:value" && oo.check == "accept" && oo.claims_true == "false" {
+                    fail(&mut v, format!("op{} check: a replaced claimed value does not influence the decision (accepted)", i + 1));
+                    return v;
+                }
+                if b.adv.is_empty() && oo.reference == "reject" {
+                    fail(&mut v, format!("op{}: an honest proof does not satisfy the reference relation", i + 1));
+                    return v;
+                }
+            }
             // a false claim must not be accepted, whatever else happened
             "not_accept_if_false" => {
                 if oo.check == "accept" && oo.claims_true == "false" {
